@@ -12,7 +12,7 @@ from __future__ import annotations
 import ast
 
 from .. import regexlang as rl
-from ..astutil import body_walk, call_name, call_recv, calls_in, kwarg, names_in, norm, strip_await, walk_no_nested
+from ..astutil import polarity_atoms, body_walk, call_name, call_recv, calls_in, kwarg, names_in, norm, strip_await, walk_no_nested
 from ..loader import AnalysisError
 from .common import parmap, where
 
@@ -524,7 +524,19 @@ def r8_3(ctx):
     ctx.analysed(fi)
     # prefix match of "inbox" on the raw input = defect; whole-token comparison = ok
     prefix = [c for c in calls_in(fi.node) if call_name(c) == "_p_simple_string" and c.args and isinstance(c.args[0], ast.Constant) and str(c.args[0].value).lower() == "inbox"]
-    whole = [n for n in body_walk(fi.node) if isinstance(n, ast.Compare) and isinstance(n.left, ast.Call) and call_name(n.left) in ("lower", "casefold") and len(n.comparators) == 1 and isinstance(n.comparators[0], ast.Constant) and n.comparators[0].value == "inbox" and isinstance(n.ops[0], ast.Eq)]
+    # arm-exact: the comparison is positive in the arm that returns the constant 'inbox'
+    whole = []
+    for iff in [n for n in body_walk(fi.node) if isinstance(n, ast.If)]:
+        if not any(isinstance(b, ast.Return) and isinstance(b.value, ast.Constant) and b.value.value == "inbox" for b in iff.body):
+            continue
+        n_before = len(whole)
+        for n, pos in polarity_atoms(iff.test):
+            if isinstance(n, ast.Compare) and isinstance(n.left, ast.Call) and call_name(n.left) in ("lower", "casefold") and len(n.comparators) == 1 and isinstance(n.comparators[0], ast.Constant) and n.comparators[0].value == "inbox":
+                if (isinstance(n.ops[0], ast.Eq) and pos) or (isinstance(n.ops[0], ast.NotEq) and not pos):
+                    if isinstance(iff.test, (ast.Compare, ast.UnaryOp)):  # the whole test, not one disjunct among others
+                        whole.append(n)
+        if len(whole) == n_before:
+            ctx.bad("R8.3", fi.module, fi.qual, f"if {norm(iff.test, 60)}: return 'inbox'", "an arm that returns the inbox is not taken exactly when the name equals INBOX case-insensitively: other names are turned into the inbox (or INBOX is not)", iff.lineno)
     boundary = any("self.input" in norm(s.test) for s in body_walk(fi.node) if isinstance(s, ast.If)) if prefix else False
     if prefix and not boundary:
         ctx.bad(
